@@ -63,7 +63,7 @@ def shells(ex, chem, nbox=3):
     return sorted(qs)
 
 
-def py_model(ex, chem, c2, nmax, obst, onmax):
+def py_model(ex, chem, c2, nmax, obst, onmax, near_only=None):
     """exact integer evaluation of the specification (mirror of Model/Jumps.jumps)"""
     P = ex.pos[chem]; D = ex.D
     box = list(itertools.product(*[range(-n, n + 1) for n in nmax]))
@@ -82,6 +82,7 @@ def py_model(ex, chem, c2, nmax, obst, onmax):
                         for n in obox:
                             xa = tuple(D * n[k] + pa[k] - pi[k] for k in range(3))
                             t = ex.bil(xa, dx)
+                            if near_only is not None and ex.qf(xa) >= near_only: continue      # (statistic only)
                             if 0 <= t <= d2 and (ex.qf(xa) * d2 - t * t) * m2.denominator <= m2.numerator * d2:
                                 blocked = True; break
                         if blocked: break
@@ -116,8 +117,8 @@ def boundary_margin(ex, chem, r2, obst, onmax, nmax):
                             near_seg = -1e-6 * scale <= t <= d2 + 1e-6 * scale
                             band = 1e-6 + 3e-5 * float(m2) / scale          # np.isclose(d2, mind2): atol 1e-8, rtol 1e-5
                             if near_seg and dd != m2 and abs(float(dd - m2)) / scale < band: return 0.0
-                            if dd <= m2 * (1 + Fraction(1, 1000)) and ((t != 0 and abs(t) / scale < 1e-7) or (t != d2 and abs(t - d2) / scale < 1e-7)):
-                                return 0.0
+                            if dd <= m2 * (1 + Fraction(1, 1000)) and (abs(t) / scale < 1e-7 or abs(t - d2) / scale < 1e-7):
+                                return 0.0          # atom (within reach) exactly/nearly beside an end point: float tie in the code
     return 1.0
 
 
@@ -195,20 +196,23 @@ def min_other_distance(ex, chem):
     return None if best is None else math.sqrt(best / ex.scale)
 
 
-def one_case(ck, rng, label, crys, chem, ex, cutoff, mode, maxjumps, skipped):
+def one_case(ck, rng, label, crys, chem, ex, cutoff, mode, maxjumps, skipped, cd_override=None):
     """returns dict describing the case (with Coq term) or None if skipped"""
     r2 = cutoff * cutoff
     c2 = ceil_frac(Fraction(r2) * ex.scale)
     # closest distance argument
     dmin = min_other_distance(ex, chem)
     def dy(frac): return math.floor(frac * dmin * 64) / 64.0
-    if dmin is None or mode == "default":
+    if cd_override is not None:
+        arg = cd_override
+        cds = list(arg) if isinstance(arg, list) else [arg] * crys.Nchem
+    elif dmin is None or mode == "default":
         arg = None; cds = [0.0] * crys.Nchem
     elif mode == "scalar":
-        v = dy(rng.choice([0.3, 0.5, 0.7, 0.85]))
+        v = dy(rng.choice([0.3, 0.5, 0.7, 0.85, 1.05, 1.3]))
         arg = v; cds = [v] * crys.Nchem
     else:
-        cds = [dy(rng.choice([0.0, 0.3, 0.6, 0.85])) for _ in range(crys.Nchem)]
+        cds = [dy(rng.choice([0.0, 0.3, 0.6, 0.85, 1.1, 1.4])) for _ in range(crys.Nchem)]
         arg = list(cds)
     obst = [None if c == chem else Fraction(float(x) ** 2) * ex.scale for c, x in enumerate(cds)]
     c2o = c2 + max([ceil_frac(m) for m in obst if m is not None] + [0])
@@ -224,6 +228,8 @@ def one_case(ck, rng, label, crys, chem, ex, cutoff, mode, maxjumps, skipped):
         skipped["near-threshold"] += 1; return None
     model = py_model(ex, chem, c2, nmax, obst, onmax)
     nfree = len(py_model(ex, chem, c2, nmax, [None] * len(obst), onmax)) if any(m is not None for m in obst) else len(model)
+    # jumps whose ONLY obstructing atoms are farther than the cutoff from the start site (beside the far end of the jump)
+    nfar = len(py_model(ex, chem, c2, nmax, obst, onmax, near_only=c2)) - len(model) if nfree != len(model) else 0
     if len(model) > maxjumps:
         skipped["too-many-jumps"] += 1; return None
     # the code's own box (for the record)
@@ -241,7 +247,7 @@ def one_case(ck, rng, label, crys, chem, ex, cutoff, mode, maxjumps, skipped):
     ops = coq_ops(ex, chem)
     res = dict(label=label, cutoff=cutoff, arg=arg, chem=chem, model=model, impl=impl, latt=latt, nmax=nmax, code_nmax=code_nmax,
                timpl=timpl, crys=repr(crys), njumps=len(model), nclasses=len(jn), nG=len(ex.ops), obst=obst,
-               box_small=any(code_nmax[k] < nmax[k] for k in range(3)), _ex=ex, _crys=crys, c2=c2, nblocked=nfree - len(model))
+               box_small=any(code_nmax[k] < nmax[k] for k in range(3)), _ex=ex, _crys=crys, c2=c2, nblocked=nfree - len(model), nfar=nfar)
     if impl is None:
         res["error"] = "displacement does not correspond to a lattice vector between the named sites"; return res
     if ops is None:
@@ -318,12 +324,12 @@ def report(ck, res, code, nmodel):
     """turn one evaluated case into counters / violations"""
     rep = {k: res.get(k) for k in ("label", "crys", "chem", "cutoff", "arg", "nmax", "code_nmax", "njumps", "nclasses", "nG")}
     rep["closestdistance"] = res.get("arg")
-    kind = "%s|cd=%s|%s" % (res["label"].split("-")[0] if res["label"].startswith("rand") else "named",
+    kind = "%s|cd=%s|%s" % (res["label"].split("-")[0] if res["label"].startswith(("rand", "farend")) else "named",
                             "default" if res["arg"] is None else ("list" if isinstance(res["arg"], list) else "scalar"),
-                            "boxsmall" if res.get("box_small") else "boxok") + ("|obstructed" if res.get("nblocked") else "")
+                            "boxsmall" if res.get("box_small") else "boxok") + ("|obstructed" if res.get("nblocked") else "") + ("|far-end-obstructor" if res.get("nfar") else "")
     ck.case(key=(res["label"], res["crys"], res["chem"], round(res["cutoff"], 9), res["arg"]), nontrivial=res.get("njumps", 0) >= 2, kind=kind,
             sample={"crystal": res["crys"], "chem": res["chem"], "cutoff": res["cutoff"], "closestdistance": res["arg"],
-                    "jumps": res.get("njumps"), "jumps_removed_by_obstruction": res.get("nblocked"), "classes": res.get("nclasses"), "|G|": res.get("nG"), "certified_box": res.get("nmax"),
+                    "jumps": res.get("njumps"), "jumps_removed_by_obstruction": res.get("nblocked"), "of_which_only_by_atoms_beyond_cutoff_from_start": res.get("nfar"), "classes": res.get("nclasses"), "|G|": res.get("nG"), "certified_box": res.get("nmax"),
                     "code_box": res.get("code_nmax"), "coq_code": code})
     if "error" in res:
         ck.violation("jumpnetwork failed or returned malformed data: " + res["error"], rep, key="c21-malformed"); return
@@ -347,11 +353,49 @@ def report(ck, res, code, nmodel):
                          (code, MEANING.get(code, "ok"), nmodel, [b[0] for b in bad], res["njumps"]), rep, key="c21-model-evaluator-disagree")
 
 
+def far_end_setup(ex, chem, rng, maxshell=5):
+    """(cutoff, closest distance) such that some jump is obstructed only by an atom that lies beside the FAR end of the
+    jump, farther than the cutoff from the start site; None if the geometry offers none"""
+    sh = shells(ex, chem, nbox=2)[:maxshell + 1]
+    if len(sh) < 2: return None
+    P = ex.pos[chem]; D = ex.D; scale = ex.scale
+    rr = [range(-2, 3)] * ex.dim + [range(0, 1)] * (3 - ex.dim)
+    ro = [range(-3, 4)] * ex.dim + [range(0, 1)] * (3 - ex.dim)
+    cands = []
+    for i, pi in enumerate(P):
+        for j, pj in enumerate(P):
+            for R in itertools.product(*rr):
+                dx = tuple(D * R[k] + pj[k] - pi[k] for k in range(3))
+                d2 = ex.qf(dx)
+                if d2 == 0 or d2 not in sh[:-1]: continue
+                nxt = sh[sh.index(d2) + 1]
+                for c, lst in enumerate(ex.pos):
+                    if c == chem: continue
+                    for pa in lst:
+                        for n in itertools.product(*ro):
+                            xa = tuple(D * n[k] + pa[k] - pi[k] for k in range(3))
+                            t = ex.bil(xa, dx); qa = ex.qf(xa)
+                            if not (0 < t < d2) or qa <= d2: continue
+                            dd = Fraction(qa * d2 - t * t, d2)
+                            if dd == 0 or dd >= d2: continue
+                            cands.append((d2, min(qa, nxt), dd, c))
+    if not cands: return None
+    d2, up, dd, c = rng.choice(cands)
+    lo, hi = math.sqrt(d2 / scale), math.sqrt(up / scale)
+    if hi - lo < 1e-5: return None
+    cutoff = lo + min(rng.choice([1e-4, 1e-3, 1e-2]), 0.4 * (hi - lo))
+    d = math.sqrt(float(dd) / scale)
+    cd = (math.floor(d * 256) + rng.choice([1, 2, 4])) / 256.0
+    return float(cutoff), cd, c
+
+
 def run(ck):
     ck.rule = ("crystal pool (named lattices + random crystal systems incl. hexagonal/monoclinic/triclinic, 2-D/3-D, 1-3 species, "
                "1-3 sites per species, positions on a 1/12 grid, lattice scale 1/2..4) x diffusing species x cutoff between two "
-               "neighbour shells (shell 1-4) x closest distance (default / scalar / per-species, dyadic, below the smallest "
-               "site-atom distance); plus skewed low-symmetry cells with long cutoffs; inputs within 1e-6 of a threshold are "
+               "neighbour shells (just above a shell or mid-gap, shell 1-4) x closest distance (default / scalar / per-species, dyadic, "
+               "0.3-1.4 x the smallest site-atom distance); plus skewed low-symmetry cells with long cutoffs; plus low-symmetry "
+               "multi-species cells built so that a jump is obstructed ONLY by an atom beside its far end (farther than the cutoff "
+               "from the start site) with the cutoff just above the jump length; inputs within 1e-6 of a threshold are "
                "skipped and counted; distinct = distinct (crystal, species, cutoff, closest distance); non-trivial = at least 2 jumps")
     ck.trusted += ["harness/c21.py, sitegen.py: exact read-back of the crystal, conversion dx -> (i,j,R) (verified rounding), Coq literal printing",
                    "crys.G taken from the implementation (validated per operation by op_okb; completeness is property C18)"]
@@ -388,6 +432,26 @@ def run(ck):
         res = one_case(ck, rng, "rand-" + r[0], crys, 0, ex, cand, "default", 2500, skipped)
         if res is not None:
             cases.append(res); found += 1
+    # low-symmetry / polar cells with an obstructing atom beside the far end of a jump, cutoff just above the jump length
+    nfarwant = ck.n(8, 40)
+    tries = found = 0
+    while found < nfarwant and tries < 30 * nfarwant:
+        tries += 1
+        dim = rng.choice([2, 2, 3])
+        r = sg.random_rational_crystal(rng, dim, maxatoms=2, nchem=rng.choice([2, 2, 3]), skew=rng.random() < 0.3)
+        if r is None: continue
+        crys = r[1]
+        if len(crys.G) > 4: continue
+        ex = sg.Exact(crys)
+        if not ex.ok: continue
+        chem = rng.randrange(crys.Nchem)
+        fe = far_end_setup(ex, chem, rng)
+        if fe is None: continue
+        cutoff, cd, c = fe
+        arg = cd if rng.random() < 0.5 else [cd if k == c else 0.0 for k in range(crys.Nchem)]
+        res = one_case(ck, rng, "farend-" + r[0], crys, chem, ex, cutoff, "override", maxjumps, skipped, cd_override=arg)
+        if res is not None and res.get("nfar"):
+            cases.append(res); found += 1
     # ---- Coq decision on every case -----------------------------------------------------------
     good = [c for c in cases if "term" in c]
     codes = {}
@@ -417,6 +481,7 @@ def run(ck):
     ck.extra["cases_checked_by_coq"] = len(codes)
     ck.extra["traces_validated_against_impl"] = len(codes)
     ck.extra["classes_all_single_orbits"] = all(c.get("single_orbit", True) for c in cases)
+    ck.extra["cases_with_far_end_obstructor"] = sum(1 for c in cases if c.get("nfar"))
     ck.extra["code_box_smaller_than_certified"] = sum(1 for c in cases if c.get("box_small"))
     ck.extra["impl_seconds"] = round(sum(c.get("timpl", 0) for c in cases), 1)
 
